@@ -40,7 +40,11 @@ func init() {
 	kinds["callseq"] = func(x *Ctx, it Item) {
 		fd := findFunc(x.File(it.File), it.Recv, it.Func)
 		if fd == nil || fd.Body == nil {
-			fail("%s: function %s.%s not found", it.File, it.Recv, it.Func)
+			// a function that does not exist makes no calls: the lemma about the expected
+			// sequence fails (layer P) and a model configured by it follows the source
+			x.Printf("(* %s: function %s.%s not found *)\n", it.File, it.Recv, it.Func)
+			x.Printf("Definition %s : list str := [].\n\n", coqName(it))
+			return
 		}
 		raw, _ := it.Args["calls"].([]any)
 		want := map[string]bool{}
